@@ -6,16 +6,16 @@ import json, subprocess
 LEVEL = {}
 CHECKS = {
  "C03": dict(cat="exploration", tech="reference-model oracle (independent codec) over generated field records and accepted byte strings; counter-history monitor",
-   text="Every generated message is encoded by the library and by an independent reference codec and compared byte for byte, decoded back and compared field by field; every byte string a decoder accepts must re-encode verbatim; >400000 consecutive automatic ids are strict-parsed. Boundary cross product is enumerated, the rest is seeded random sampling: held on the cases run, not proved. Also 2..16 goroutines drawing automatic identifiers at once through more than a thousand wraps per run.",
+   text="Every generated message is encoded by the library and by an independent reference codec and compared byte for byte, decoded back and compared field by field; every byte string a decoder accepts must re-encode verbatim; >400000 consecutive automatic ids are strict-parsed. Boundary cross product is enumerated, the rest is seeded random sampling: held on the cases run, not proved. Also 2..16 goroutines drawing automatic identifiers at once through more than a thousand wraps per run. Decoded packets are also changed through single setters (on fresh and on reused message objects) and must encode to the reference encoding of the fields they then report.",
    note="trusted: harness/refcodec (written from the OASIS text); raw flag setters without their value are outside 'built through the API'", ref="3/C03"),
  "C04": dict(cat="exploration", tech="runtime monitor (recover + address-range + reference-decoder oracle) over systematic mutations of valid packets and random bytes, cap==len inputs",
-   text="All 14 decoders run on >1.3M (quick) hostile inputs derived systematically from valid packets (all prefixes, all single-bit flips, length/flag rewrites) and random bytes, each in a slice with cap==len so any over-read is a bounds panic; oracle checks no panic, byte count, field address ranges and acceptance of strict-valid packets.",
+   text="All 14 decoders run on >1.3M (quick) hostile inputs derived systematically from valid packets (all prefixes, all single-bit flips, length/flag rewrites) and random bytes, each in a slice with cap==len so any over-read is a bounds panic; oracle checks no panic, byte count, field address ranges and acceptance of strict-valid packets. Every input is decoded a second time into a long-lived, much-used message object of the type: same verdict, count and fields, nothing outside the input.",
    note="no unsafe/cgo in the library, so Go bounds checks make over-reads observable; reference decoder defines 'well-formed'", ref="3/C04"),
  "C06": dict(cat="exploration", tech="reference-model oracle (MQTT 4.7 matcher + map model) over an exhaustive small scope and random API histories of topics.NewMemProvider()",
    text="All 779 filters of <=4 levels over {a,b,empty,+,#} x all names of <=4 levels over {a,b,empty} x 3 QoS are decided against the specification matcher on the real topic store (Subscribers and Retained), and thousands of random subscribe/unsubscribe/retain histories are compared with a map model after every operation. Exhaustive for that scope only; histories are sampled. Concurrent histories (one subscriber per goroutine, untouched bystanders, union of the models at quiescence) are checked as well.",
    note="trusted: spec.Match (20 lines from section 4.7); known finding F-C06-1 (empty levels) is recognised by a classifier predicate, anything else is reported", ref="3/C06"),
  "C13": dict(cat="exploration", tech="list-model oracle over exhaustively enumerated operation sequences and random histories; porcupine linearizability check of concurrent histories",
-   text="Every register/ack/collect sequence up to depth 6 (ids {1,2}) and 5 (ids {1,2,3}) is executed on a fresh real queue and compared with a FIFO list model incl. byte-identity of the copies; long random histories exercise growth and wrap; concurrent histories are checked with porcupine. Bounded exhaustive + sampling. Growth of a full, wrapped queue while an acknowledgement is in progress is enumerated separately (ack message with a dwelling Encode).",
+   text="Every register/ack/collect sequence up to depth 6 (ids {1,2}) and 5 (ids {1,2,3}) is executed on a fresh real queue and compared with a FIFO list model incl. byte-identity of the copies; long random histories exercise growth and wrap; concurrent histories are checked with porcupine. Bounded exhaustive + sampling. Growth of a full, wrapped queue while an acknowledgement is in progress is enumerated separately (ack message with a dwelling Encode). Lists handed back by Acked are kept and must stay unchanged by later calls.",
    note="trusted: the 60-line list model; porcupine v1.3.0", ref="3/C13"),
  "C14": dict(cat="exploration", tech="stream-position oracle on the real ring (every obtained byte verified at its committed offset), enumerated op x offset x chunk matrix, concurrent SPSC stress incl. Go race detector",
    text="All producer-op x consumer-op x wrap-position x chunk-size cells are executed single-threaded, then hundreds of MiB are moved between a producer and a consumer goroutine with seeded op mixes at three GOMAXPROCS values, with peeked slices re-verified before commit; the same workload runs under -race. Held on the executions run. Close cells: a producer parked for space is ended by Close and the consumer drains or holds a peeked slice.",
@@ -24,10 +24,10 @@ CHECKS = {
    text="583 applicable cells of the blocking matrix are executed; yield hooks place Close / commits exactly in the check-to-Wait window and before the Lock; afterwards every exported method is probed. A parked call with no enabled waker (two identical all-parked snapshots) is the witness.",
    note="liveness restated as absence of stuck states on the enumerated matrix; deadlines are only watchdogs", ref="3/C15"),
  "C01": dict(cat="exploration", tech="reference-model monitor over wire histories of a real broker (net.Pipe) at synctest quiescence points; payloads carry unique id + CRC",
-   text="Thousands of generated sequential histories are executed step by step against the real broker; after every publish, at true quiescence, each subscriber's received copies are compared with what a small subscription model and the MQTT 4.7 matcher allow (1..k copies, QoS multiset, nobody else). Sampling of histories, not exhaustive.",
+   text="Thousands of generated sequential histories are executed step by step against the real broker; after every publish, at true quiescence, each subscriber's received copies are compared with what a small subscription model and the MQTT 4.7 matcher allow (1..k copies, QoS multiset, nobody else). Sampling of histories, not exhaustive. Multi-filter UNSUBSCRIBEs also list filters the client does not hold.",
    note="trusted: synctest quiescence, spec.Match, the subscription model; known finding F-C01-1 (empty levels) recognised by classifier", ref="3/C01"),
  "C07": dict(cat="exploration", tech="wire-level monitor: SUBACK/UNSUBACK obligations and probe-publish effect check at synctest quiescence",
-   text="Generated SUBSCRIBE/UNSUBSCRIBE packets incl. invalid filters and out-of-range QoS are sent to the real broker; silence on an open connection, a wrong code, order or count is a violation, and probes after the ack verify that exactly the granted filters are effective. Also: 4..13 connections subscribing / unsubscribing at the same moment on one tree node, with PINGREQ/PINGRESP barriers (real time).",
+   text="Generated SUBSCRIBE/UNSUBSCRIBE packets incl. invalid filters and out-of-range QoS are sent to the real broker; silence on an open connection, a wrong code, order or count is a violation, and probes after the ack verify that exactly the granted filters are effective. Also: 4..13 connections subscribing / unsubscribing at the same moment on one tree node, with PINGREQ/PINGRESP barriers (real time). A subject subscribed behind a short-lived neighbour must receive a whole numbered stream while the neighbour's connection is cut inside it.",
    note="trusted: reference encoder for malformed requests, synctest quiescence", ref="3/C07"),
  "C08": dict(cat="exploration", tech="last-writer-wins model monitor over wire histories at synctest quiescence; CRC payloads",
    text="Retained/plain/clearing publishes, filler traffic beyond two ring sizes and new subscriptions are interleaved; at every new subscription the exact multiset of retained deliveries (flag, QoS, payload identity) is compared with the model.",
@@ -39,31 +39,31 @@ CHECKS = {
    text="Generated connect/subscribe/unsubscribe/end histories over three client ids; SessionPresent and the set of active subscriptions after every (re)connect are compared with a model of the state kept by CleanSession=0 connections, using probe publishes and the C01 delivery oracle. Also: sessions of 1000..40000 filters probed the instant the first PINGRESP is read (real time), and resume attempts over a transport whose CONNACK write fails.",
    note="trusted: synctest quiescence, the 20-line session model", ref="3/C10"),
  "C11": dict(cat="exploration", tech="first-packet product monitor at synctest quiescence with witness subscriber, retained-store and session probes; virtual-time connect timeout",
-   text="About 1600 first packets (all types, CONNECT field/flag product, malformed variants) under three authenticators, each followed by a tail of effective packets; answers and absence of any effect are checked at quiescence. Every first packet is also sent in two pieces and byte by byte / in three pieces, and with 5 KiB / 64 KiB wills.",
+   text="About 1600 first packets (all types, CONNECT field/flag product, malformed variants) under three authenticators, each followed by a tail of effective packets; answers and absence of any effect are checked at quiescence. Every first packet is also sent in two pieces and byte by byte / in three pieces, and with 5 KiB / 64 KiB wills. Groups of acceptable CONNECTs sent at the same moment (same new client id or different ids) must all be answered with CONNACK 0.",
    note="refusal code set derived from the applicable reasons; policy-dependent ids may go either way", ref="3/C11"),
  "C19": dict(cat="exploration", tech="virtual-time monitor (testing/synctest) of keep-alive expiry and PINGREQ/PINGRESP with a will witness",
-   text="All 84 combinations of K and activity pattern run in virtual time; drop time after the last byte is measured exactly (observed 1.2 K), active clients survive 50 intervals, expiry publishes the will once. Now 138 pattern runs (mid-packet silence, uneven pacing just inside K, pings behind a near-ring-size packet) plus real-time window cells in which the expiry meets a goroutine held in its check-to-Wait window.",
+   text="All 84 combinations of K and activity pattern run in virtual time; drop time after the last byte is measured exactly (observed 1.2 K), active clients survive 50 intervals, expiry publishes the will once. Now 138 pattern runs (mid-packet silence, uneven pacing just inside K, pings behind a near-ring-size packet) plus real-time window cells in which the expiry meets a goroutine held in its check-to-Wait window. A successor connection with the same client id that is active must survive the silent one's expiry, and the will published is the silent connection's.",
    note="virtual clock for the pattern runs; the window cells run in real time with hook events, not deadlines, deciding", ref="3/C19"),
  "C02": dict(cat="exploration", tech="per-packet wire oracle over enumerated and sampled QoS 1/2 scripts at synctest quiescence (acks on the publisher's wire, hand-overs on a QoS 2 subscriber's wire)",
    text="All scripts up to length 5 over a 6-token alphabet and thousands of longer sampled ones; after every packet the exact acks and hand-overs are compared with the QoS 2 receiver state machine, incl. DUPs with different content and ring-wrapping filler. Plus burst scripts (17..48 exchanges open at once, both roles), sender reconnects, and pipelined bursts of more than three ring sizes written while the subscriber is stalled (acknowledgements and hand-overs compared with the packet order at quiescence).",
    note="broker role; client role via scripted peer (see DESIGN)", ref="3/C02"),
  "C12": dict(cat="exploration", tech="event-log oracle over client-API completions vs a scripted TCP peer (global sequence stamps), yield-hook forced ack-before-register interleaving, wire-id monitor on a raw subscriber",
-   text="Completion callbacks and peer acks are stamped from one counter; exactly-once, not-before-ack and completed-by-barrier are checked for generated ack orders; the adverse interleaving is forced deterministically through the verif yield point and the proc.handled event; forwarded packet identifiers in flight are checked on the subscriber's wire. Also: 2..4 clients used by 4..8 goroutines each with all acknowledgements withheld (identifiers in flight distinct, completions exactly once), and identifier wrap-around caused by another client in the process.",
+   text="Completion callbacks and peer acks are stamped from one counter; exactly-once, not-before-ack and completed-by-barrier are checked for generated ack orders; the adverse interleaving is forced deterministically through the verif yield point and the proc.handled event; forwarded packet identifiers in flight are checked on the subscriber's wire. Also: 2..4 clients used by 4..8 goroutines each with all acknowledgements withheld (identifiers in flight distinct, completions exactly once), and identifier wrap-around caused by another client in the process. A quarter of the scripted requests carry no completion function.",
    note="real TCP/real time with a protocol barrier; one session at a time per child process", ref="3/C12"),
  "C20": dict(cat="exploration", tech="scripted-peer monitor of Client.Connect results and callback dispatch; goroutine-snapshot leak check",
-   text="27 CONNACK answers and hundreds of generated subscribe/unsubscribe/inbound-publish sessions; per-request callback invocation counts are compared with the MQTT matcher after a protocol barrier; goroutine snapshots show no library frame after failed Connect / Disconnect. Also: a burst of deliveries followed at once by the end of the stream (callbacks counted at the teardown-finished event).",
+   text="27 CONNACK answers and hundreds of generated subscribe/unsubscribe/inbound-publish sessions; per-request callback invocation counts are compared with the MQTT matcher after a protocol barrier; goroutine snapshots show no library frame after failed Connect / Disconnect. Also: a burst of deliveries followed at once by the end of the stream (callbacks counted at the teardown-finished event). A third of the Subscribe/Unsubscribe calls are held right after writing the request until the acknowledgement was handled.",
    note="real TCP on 127.0.0.1; leak check by stack frames under the library import path", ref="3/C20"),
  "C16": dict(cat="fault_enumeration", tech="enumerated teardown matrix at synctest quiescence; teardown-finished hook events, witness client, goroutine-snapshot leak check, process-wide deadlock watchdog",
-   text="All 160 cause x buffer-condition x order x will x CleanSession cells are executed against the real broker with really full rings (clients that stop reading); completion of teardown is decided from hook events and goroutine state at quiescence. Since extended to 232 cells (an incomplete near-ring-size message in the inbound ring as a fifth condition), 32 pipelined cells (ending packet behind a held-up delivery) and 36 real-time window cells where the yield hook holds a goroutine between its done-check and Cond.Wait while the connection ends, keep-alive expiry included.",
+   text="All 160 cause x buffer-condition x order x will x CleanSession cells are executed against the real broker with really full rings (clients that stop reading); completion of teardown is decided from hook events and goroutine state at quiescence. Since extended to 232 cells (an incomplete near-ring-size message in the inbound ring as a fifth condition), 32 pipelined cells (ending packet behind a held-up delivery) and 36 real-time window cells where the yield hook holds a goroutine between its done-check and Cond.Wait while the connection ends, keep-alive expiry included. A third of the cells have refused ('$') publishes in their history; wills larger than the rings must not keep a teardown from finishing.",
    note="bounded time = quiescence reached with all goroutines gone; watchdog expiry without an all-parked snapshot is inconclusive", ref="3/C16"),
  "C17": dict(cat="exploration", tech="strict reference-parser monitor on every subscriber stream + per-(subscriber,publisher,topic,QoS) sequence monitor under concurrent stress, also with the Go race detector",
-   text="Dozens of concurrent runs with up to 12 publishers, slow/bursty subscribers, in-process publishers, retained updates and churning clients; every received byte is strict-parsed, every payload CRC-checked, sequence numbers per publisher/topic/QoS must increase. Held on the executed schedules.",
+   text="Dozens of concurrent runs with up to 12 publishers, slow/bursty subscribers, in-process publishers, retained updates and churning clients; every received byte is strict-parsed, every payload CRC-checked, sequence numbers per publisher/topic/QoS must increase. Held on the executed schedules. A stored session is resumed dozens of times while 9..30 KiB messages pour into its subscription: CONNACK first, whole packets only.",
    note="real time over net.Pipe; quiescence by protocol barriers", ref="3/C17"),
  "C18": dict(cat="exploration", tech="Go race detector (-race, reports parsed from GORACE logs) over concurrent broker, ring and ack-queue workloads with measured overlap counters",
-   text="The race detector observes workloads W1-W7; any report with a library frame is a violation keyed by the pair of innermost library functions; overlap counters (e.g. thousands of deliveries entering writeMessage during the target's teardown) are measured in the same processes and must exceed floors.",
+   text="The race detector observes workloads W1-W7; any report with a library frame is a violation keyed by the pair of innermost library functions; overlap counters (e.g. thousands of deliveries entering writeMessage during the target's teardown) are measured in the same processes and must exceed floors. Workload W8 lets two connections of one stored session work off acknowledgements at the same time.",
    note="absence of reports on executed schedules only; W7 (same client id reconnecting during teardown) was open finding F-C18-1 until repair b5ad4f5", ref="3/C18"),
  "C05": dict(cat="fault_enumeration", tech="out-of-process broker under enumerated hostile connections with a witness publisher/subscriber pair and an idle observer as monitors; exit status/stderr capture",
-   text="More than a thousand attack connections per quick run (truncations at every offset, field corruptions, mutated packets of all types, oversized packets, forbidden packets, cuts and teardown racing deliveries) against real broker processes over TCP; after each, process liveness, bystander connections and the exact witness sequence are checked. Also in-process: several publishers delivering to a stalled subscriber at the moment it is cut must all survive and keep working.",
+   text="More than a thousand attack connections per quick run (truncations at every offset, field corruptions, mutated packets of all types, oversized packets, forbidden packets, cuts and teardown racing deliveries) against real broker processes over TCP; after each, process liveness, bystander connections and the exact witness sequence are checked. Also in-process: several publishers delivering to a stalled subscriber at the moment it is cut must all survive and keep working. Also: well-framed short CONNECTs, mutated CONNECTs as first packet, and wills larger than the configured rings (a CONNECT bypasses the ring) whose delivery must neither wedge a subscriber nor the teardown.",
    note="the broker is a child process so a crash is observable and contained; every case is logged before it is sent", ref="3/C05"),
 }
 PENDING = {}
